@@ -65,6 +65,14 @@ Theorem C07_between_real_in_interval : forall lo hi st, wf st ->
 Proof. exact between_real_contract_all. Qed.
 Print Assumptions C07_between_real_in_interval.
 
+(* std::discrete_distribution<unsigned> as population.tcc:pickup builds it from the layer sizes (normalised cumulative
+   probabilities, last forced to 1.0, generate_canonical, libstdc++'s binary-search std::lower_bound): over at least
+   two weights the drawn layer index exists, for every 64-bit engine state *)
+Theorem C07_discrete_index_in_range : forall ws st, wf st -> (2 <= length ws)%nat ->
+  0 <= fst (discrete ws st) < Z.of_nat (length ws).
+Proof. exact discrete_in_range. Qed.
+Print Assumptions C07_discrete_index_in_range.
+
 (* a whole sequence of requests answered from a seed: every integer answer is in range *)
 Theorem C07_draw_sequence_int_answers_in_range : forall fuel qs old s,
   answers_ok qs (answers fuel qs (random_seed old s)).
